@@ -51,6 +51,10 @@ pub struct KaCase {
     /// towards a host that went away); 0 = always writable. Nothing sent after that point reaches the peer, so no pong comes back.
     #[serde(default)]
     pub sink_stalls_at: u64,
+    /// the application sends a datagram every so many ms of virtual time (0 = none) while the peer sends nothing but its Pongs:
+    /// one-way traffic must neither replace the pings nor count as (or against) proof of life
+    #[serde(default)]
+    pub datagram_every: u64,
 }
 
 struct Rec {
@@ -188,6 +192,22 @@ pub fn run_ka(c: &KaCase) -> KaResult {
             let r = taskdata.into_task().await;
             (ms_since(start), r.map_err(|e| format!("{e:?}")))
         });
+        if c.datagram_every > 0 {
+            let (m0, every) = (mux.clone(), c.datagram_every);
+            tokio::spawn(async move {
+                // 1 ms off the grid: never at the very instant of a tick or a pong
+                tokio::time::sleep(Duration::from_millis(1)).await;
+                let mut k = 0u32;
+                loop {
+                    let d = penguin_mux::Datagram { flow_id: 9, target_host: bytes::Bytes::from_static(b"one-way"), target_port: 53, data: bytes::Bytes::from(k.to_be_bytes().to_vec()) };
+                    if m0.send_datagram(d).await.is_err() {
+                        return;
+                    }
+                    k += 1;
+                    tokio::time::sleep(Duration::from_millis(every)).await;
+                }
+            });
+        }
         let m1 = mux.clone();
         let dg = tokio::spawn(async move {
             let r = m1.get_datagram().await;
@@ -352,7 +372,7 @@ fn ka_case() -> impl Strategy<Value = KaCase> {
             let peer = prop_oneof![4 => Just(0u64), 1 => Just((i / 20).max(1) * 10), 1 => Just(i.max(10)), 1 => Just(250u64)];
             // a sink that stops being writable at some multiple of 10 ms + 7 (never at a tick, a pong or a peer ping)
             let stall = prop_oneof![5 => Just(0u64), 2 => (0u64..(12 * i.max(10)) / 10).prop_map(|x| x * 10 + 7)];
-            (Just(i), Just(t), pong, any::<bool>(), peer, stall).prop_map(|(interval, timeout, pong, silent_transport, peer_ping_every, sink_stalls_at)| KaCase { interval, timeout, pong, silent_transport, peer_ping_every, sink_stalls_at })
+            (Just(i), Just(t), pong, any::<bool>(), peer, stall, prop_oneof![4 => Just(0u64), 1 => Just((i / 40).max(1) * 10), 1 => Just((i / 20).max(1) * 10 * 3)]).prop_map(|(interval, timeout, pong, silent_transport, peer_ping_every, sink_stalls_at, datagram_every)| KaCase { interval, timeout, pong, silent_transport, peer_ping_every, sink_stalls_at, datagram_every })
         })
     })
 }
@@ -383,11 +403,32 @@ pub fn c16(ctx: &Ctx, rep: &mut Report) {
                 3 => Pong::ThenSilent(14, 15),
                 _ => Pong::Never,
             };
-            KaCase { interval: i, timeout: t, pong, silent_transport, peer_ping_every: 0, sink_stalls_at: 0 }
+            KaCase { interval: i, timeout: t, pong, silent_transport, peer_ping_every: 0, sink_stalls_at: 0, datagram_every: 0 }
         })
     }, |c| {
         let mut o = check_ka(c);
         o.classes.push("uptime-days-to-months");
         o
     });
+}
+
+/// C11 "no datagram, whatever its size or rate, terminates the connection" with keepalive configured: a steady one-way datagram flow
+/// (faster than, as fast as, slower than the ping interval) to a live peer that answers every ping at once and sends nothing
+/// else; the connection must stay up for the whole horizon and the pings must go out as usual
+pub const DATAGRAM_FLOW_CASES: u64 = 3 * 3 * 2;
+pub fn datagram_flow_case(i: u64) -> KaCase {
+    let interval = [1000u64, 2500, 10_000][(i % 3) as usize];
+    let every = [interval / 10, interval, interval * 3 / 2][((i / 3) % 3) as usize];
+    let timeout = if i / 9 == 0 { interval } else { 3 * interval };
+    KaCase { interval, timeout, pong: Pong::Const(5), silent_transport: false, peer_ping_every: 0, sink_stalls_at: 0, datagram_every: every }
+}
+pub fn check_datagram_flow(c: &KaCase) -> Outcome {
+    let r = run_ka(c);
+    if let Some((at, res)) = &r.end {
+        return Outcome::violation("c11-datagram-flow-ends-connection", format!("keepalive every {} ms, timeout {} ms, every ping answered after 5 ms, the application sends one datagram every {} ms: the connection ended at {at} ms with {res:?}", c.interval, c.timeout, c.datagram_every));
+    }
+    let mut o = check_ka(c);
+    o.nontrivial = true;
+    o.classes.push("one-way-datagram-flow-with-keepalive");
+    o
 }
